@@ -81,6 +81,7 @@ type ddxCfg struct {
 	veps   []string
 	shards int
 	budget int
+	phase  bool // operations happen 500 ms off the brokers' 1 s cleanup ticks
 }
 
 func (c *ddxCfg) letters() []ddxOp {
@@ -119,6 +120,8 @@ func ddxVariants(tier string) []vsched.Variant {
 	var cfgs []*ddxCfg
 	if tier == "thorough" {
 		cfgs = []*ddxCfg{
+			{name: "stream/d7/phase", broker: "stream", depth: 7, chans: one, idems: []string{"k1"}, vers: nil, veps: nil, shards: 1, budget: 300, phase: true},
+			{name: "map/d7/phase", broker: "map", depth: 7, chans: one, mkeys: []string{"x"}, idems: []string{"k1"}, vers: nil, veps: nil, shards: 1, budget: 300, phase: true},
 			{name: "stream/d4/full", broker: "stream", depth: 4, chans: one, idems: idem3, vers: verFull, veps: ep3, shards: 16, budget: 900},
 			{name: "stream/d6/small", broker: "stream", depth: 6, chans: one, idems: idem2, vers: []uint64{1, 2}, veps: ep2, shards: 8, budget: 900},
 			{name: "stream/d5/nohistory", broker: "stream", nohist: true, depth: 5, chans: one, idems: idem3, vers: []uint64{1}, veps: []string{""}, shards: 1, budget: 900},
@@ -130,6 +133,8 @@ func ddxVariants(tier string) []vsched.Variant {
 		}
 	} else {
 		cfgs = []*ddxCfg{
+			{name: "stream/d6/phase", broker: "stream", depth: 6, chans: one, idems: []string{"k1"}, vers: nil, veps: nil, shards: 1, budget: 150, phase: true},
+			{name: "map/d6/phase", broker: "map", depth: 6, chans: one, mkeys: []string{"x"}, idems: []string{"k1"}, vers: nil, veps: nil, shards: 1, budget: 150, phase: true},
 			{name: "stream/d3/full", broker: "stream", depth: 3, chans: one, idems: idem3, vers: verFull, veps: ep3, shards: 4, budget: 150},
 			{name: "stream/d4/medium", broker: "stream", depth: 4, chans: one, idems: idem3, vers: []uint64{1, 2}, veps: ep2, shards: 4, budget: 150},
 			{name: "stream/d4/nohistory", broker: "stream", nohist: true, depth: 4, chans: one, idems: idem3, vers: []uint64{1}, veps: []string{""}, shards: 1, budget: 150},
@@ -331,6 +336,12 @@ func ddxBody(cfg *ddxCfg) func() {
 			}
 		}
 		vsched.WaitIdle()
+		if cfg.phase {
+			// the result-cache sweep ticks every second from registration; shifting all
+			// operations by half a second puts publishes between a result's expiry and the
+			// sweep that collects it
+			vsched.Advance(500 * vMs)
+		}
 		choose := func(k int) int {
 			vsched.Quiet(false)
 			x := vsched.ChooseFree(k)
